@@ -362,6 +362,20 @@ ASTNode *PrimaryExpressionParser::parsePrimary() {
             int depth = 1;
             bool is_function_call = false;
             while (depth > 0 && !parser_->isAtEnd()) {
+                // only tokens that can appear in a type argument list may occur
+                // before the closing '>'; anything else: '<' is the comparison
+                if (parser_->check(TokenType::TOK_SEMICOLON) ||
+                    parser_->check(TokenType::TOK_LPAREN) ||
+                    parser_->check(TokenType::TOK_RPAREN) ||
+                    parser_->check(TokenType::TOK_LBRACE) ||
+                    parser_->check(TokenType::TOK_RBRACE) ||
+                    parser_->check(TokenType::TOK_ASSIGN) ||
+                    parser_->check(TokenType::TOK_PLUS) ||
+                    parser_->check(TokenType::TOK_MINUS) ||
+                    parser_->check(TokenType::TOK_AND) ||
+                    parser_->check(TokenType::TOK_OR)) {
+                    break;
+                }
                 if (parser_->check(TokenType::TOK_LT)) {
                     depth++;
                 } else if (parser_->check(TokenType::TOK_GT)) {
